@@ -969,6 +969,14 @@ def readGraph(input_file,
                 G.remove_node('\\n')
             except networkx.exception.NetworkXError:
                 pass
+            # dot labels are strings: vertices named by distinct integers
+            # are numbered in numeric (not lexicographic) order
+            try:
+                mapping = {v: int(v) for v in G.nodes()}
+                if len(set(mapping.values())) == len(mapping):
+                    G = networkx.relabel_nodes(G, mapping)
+            except ValueError:
+                pass
             G = graph_class.normalize(G)
         except TypeError:
             raise ValueError('Parse Error in dot file')
